@@ -72,7 +72,7 @@ ASSUMPTIONS = [
     "store of the tile and the response image is the fill colour; required: a Cache-Control no-store directive. "
     "no-store accompanied by public/max-age in a second header is counted as don't-care (no-store prevails)",
     "timestamps are forced with os.utime(ns) / SQL UPDATE by the harness; no sleeping, no wall-clock verdicts",
-    "single-threaded histories; expiry (refresh_before) is not configured (C13)",
+    "single-threaded histories; expiry appears only as a way to rewrite a tile in place (refresh_before: mtime of a marker file that the harness moves to 2100 for one request); which tiles a rule selects is C13's subject",
 ]
 
 FILL = (255, 0, 0)
@@ -253,6 +253,8 @@ def gen_spec(rng):
     z = rng.randint(1, spec['levels'] - 1)
     n = 2 ** z
     spec['tile'] = [rng.randrange(n), rng.randrange(n), z]
+    # a refresh rule (mtime of a marker file, ancient unless the harness moves it): tiles can also be rewritten by expiry
+    spec['expiry'] = rng.random() < 0.5
     return spec
 
 
@@ -320,6 +322,10 @@ def tile_rect(lat, x, y, z):
     return (x0, y0, x0 + r * tw, y1)
 
 
+MARKER_ANCIENT = 946684800          # 2000-01-01: nothing is stale
+MARKER_FUTURE = 4102444800           # 2100-01-01: everything is stale
+
+
 def build(spec, d):
     conf = scenario.base_conf()
     conf['grids']['g'] = {'srs': spec['srs'], 'bbox': list(spec['bbox']), 'tile_size': list(spec['tile_size']),
@@ -341,6 +347,12 @@ def build(spec, d):
         cache['cache'] = {'type': 'file', 'directory_layout': spec['layout']}
         if spec.get('link_single'):
             cache['link_single_color_images'] = True
+    if spec.get('expiry'):
+        marker = os.path.join(d, 'expiry-marker')
+        with open(marker, 'w') as f:
+            f.write('x')
+        os.utime(marker, (MARKER_ANCIENT, MARKER_ANCIENT))
+        cache['refresh_before'] = {'mtime': marker}
     conf['caches']['c'] = cache
     conf['layers'] = [{'name': 'lyr', 'title': 'lyr', 'sources': ['c']}]
     gn = bool(spec['grid_names'])
@@ -476,7 +488,8 @@ def gen_ops(rng, spec):
                                                                'ims_newer', 'inm_uncacheable', 'both_stale_newer'])
             file_b = spec['backend'] == 'file'
             ops.append(['rewrite', {
-                'via': rng.choice(['api', 'raw'] + (['neighbour', 'neighbour'] if meta else [])),
+                'via': rng.choice(['api', 'raw'] + (['neighbour', 'neighbour'] if meta else []) +
+                                  (['expire', 'expire', 'expire'] if spec.get('expiry') else [])),
                 'epoch': rng.random() < 0.8,
                 'by': by, 'v': rng.randrange(1000),
                 'touch': rng.choice(['natural', 'same_instant', 'same_instant', 'later', 'later', 'earlier'] +
@@ -498,9 +511,10 @@ def gen_ops(rng, spec):
     if spec.get('link_single'):
         # a tile linked to an ALREADY EXISTING single-colour file (same colour again): re-create twice, the second time
         # with the validator the first re-creating response handed out
-        ops.append(['rewrite', {'via': rng.choice(['api', 'raw']), 'epoch': False, 'by': 'get', 'v': rng.randrange(1000),
+        lvia = ['api', 'raw'] + (['expire', 'expire'] if spec.get('expiry') else [])
+        ops.append(['rewrite', {'via': rng.choice(lvia), 'epoch': False, 'by': rng.choice(['get', 'inm_current']), 'v': rng.randrange(1000),
                                 'touch': 'natural', 'dt': 1}])
-        ops.append(['rewrite', {'via': rng.choice(['api', 'raw']), 'epoch': False, 'by': 'inm_creating', 'v': rng.randrange(1000),
+        ops.append(['rewrite', {'via': rng.choice(lvia), 'epoch': False, 'by': rng.choice(['inm_creating', 'inm_current', 'ims_equal']), 'v': rng.randrange(1000),
                                 'touch': rng.choice(['natural', 'later']), 'dt': 2}])
         ops.append(['get'])
     return ops
@@ -540,6 +554,8 @@ class History(object):
         self.run = run
         self.case = case
         self.spec = spec
+        self.d = d
+        self.expire_window = None
         self.sc, self.grid, self.lat, self.state, self.up = build(spec, d)
         self.tm = self.sc.tile_manager('c')
         tx, ty, tz = spec['tile']
@@ -668,6 +684,10 @@ class History(object):
         g0, st0 = rec.gen, rec.stored
         nload = len(rec.loads)
         r = self.sc.get(url or self.url, headers=headers or None)
+        if self.expire_window:
+            # the refresh rule was moved to 2100 for exactly this one request (the reference request below must not re-create)
+            os.utime(self.expire_window, (MARKER_ANCIENT, MARKER_ANCIENT))
+            self.expire_window = None
         g1, st1 = rec.gen, rec.stored
         sha = hashlib.sha1(r.body).hexdigest()[:12]
         v = {'etag': r.header('ETag'), 'lm': r.header('Last-Modified'), 'sha': sha, 'len': len(r.body)}
@@ -977,7 +997,14 @@ class History(object):
         if o['epoch']:
             self.state['epoch'] += 1
         g0 = self.rec.gen
-        if via == 'api':
+        marker = os.path.join(self.d, 'expiry-marker')
+        if via == 'expire':
+            # nothing is removed: the refresh rule declares every stored tile stale for the next request, which re-creates
+            # the tile through the tile manager while the old one (and its metadata) is still there
+            os.utime(marker, (MARKER_FUTURE, MARKER_FUTURE))
+            self.expire_window = marker
+            run.hit('rewrites_by_expiry')
+        elif via == 'api':
             self.remove_api([self.T])
         elif via == 'raw':
             self.raw_remove()
@@ -986,10 +1013,15 @@ class History(object):
             self.remove_api([n])
             self.request({}, 'get', url=self.url_for(*n))
         if via != 'neighbour':
-            if o['by'] == 'get':
-                self.request({}, 'get')
-            else:
-                self.cond(o['by'], o['v'])
+            try:
+                if o['by'] == 'get':
+                    self.request({}, 'get')
+                else:
+                    self.cond(o['by'], o['v'])
+            finally:
+                if via == 'expire':
+                    os.utime(marker, (MARKER_ANCIENT, MARKER_ANCIENT))
+                    self.expire_window = None
         if self.failed:
             return
         if not self.rec.stored or self.rec.gen == g0:
